@@ -172,17 +172,17 @@ def ev(e, env, over=None, log=None, faults=None):
         for c in e.children:
             acc = ap(operator.mul, acc, r(c))
         return acc
-    if t is p.Quotient:
+    if isinstance(e, p.Quotient):
         return ap(_truediv, r(e.numerator), r(e.denominator))
-    if t is p.FloorDiv:
+    if isinstance(e, p.FloorDiv):
         return ap(operator.floordiv, r(e.numerator), r(e.denominator))
-    if t is p.Remainder:
+    if isinstance(e, p.Remainder):
         return ap(operator.mod, r(e.numerator), r(e.denominator))
     if isinstance(e, p.Power):
         return ap(_pow, r(e.base), r(e.exponent))
-    if t is p.LeftShift:
+    if isinstance(e, p.LeftShift):
         return ap(_lshift, r(e.shiftee), r(e.shift))
-    if t is p.RightShift:
+    if isinstance(e, p.RightShift):
         return ap(operator.rshift, r(e.shiftee), r(e.shift))
     if isinstance(e, p.BitwiseNot):
         return ap(operator.invert, r(e.child))
@@ -298,6 +298,11 @@ def _isint(v):
 
 def _pow(a, b):
     from fractions import Fraction
+    if isinstance(b, Fraction) and b.denominator == 1 and isinstance(a, (int, Fraction)) \
+            and abs(b) > 64:
+        n = max(abs(a.numerator), abs(a.denominator)) if isinstance(a, Fraction) else abs(a)
+        if n > 1 and n.bit_length() * abs(b.numerator) > MAX_BITS:
+            raise TooCostly()
     if _isint(b) and isinstance(a, (int, Fraction)) and abs(b) > 64:
         n = max(abs(a.numerator), abs(a.denominator)) if isinstance(a, Fraction) else abs(a)
         if n > 1 and n.bit_length() * abs(b) > MAX_BITS:
